@@ -14,7 +14,7 @@ INTERRUPT_X = [3, 9]
 INTERRUPT_PROBES = None
 CONCUR_FILES = ('bits/blockchain.py', 'bits/tx.py', 'bits/utils.py')
 # (thread a, thread b), warm-up: indices into seq_ops() - the ordinary single-case checks run concurrently (vf/concur.py)
-CONCUR_SCEN = [((3, 4), ()), ((3, 3), (1,)), ((8, 9), (7,)), ((5, 12), (10,)), ((3, 4, 8), ())]   # the last one: three threads
+CONCUR_SCEN = [((3, 4), ()), ((3, 3), (1,)), ((8, 9), (7,)), ((5, 12), (10,)), ((8, 10), ()), ((3, 4, 8), ())]   # the last one: three threads
 LEVEL = "exploration"
 RULE = ("merkle: EVERY list length 1..300 (thorough 1..2048) with distinct ids and with all-equal ids (the tree shape depends "
         "only on the length); coinbase: EVERY height 0..70000 on both halving schedules with default arguments, and the full "
